@@ -36,6 +36,7 @@ W_SQRT = "sqrt (reciprocal square root, one multiplication, one double-word corr
 W_CBRT = "cbrt's two Newton steps in double-double arithmetic from EVERY seed word within one ulp of the true cube root of the high word (libm::cbrt is only faithful, so the seed is a nondeterministic choice of the model), on every valid x of three binades (all exponent residues mod 3), both signs: normalised, same sign, within 16 * 2^-2P relative"
 W_POWI = "powi's square-and-multiply loop (with the *= copies of Alg. 12) for n = 2..12 and both signs of EVERY valid x of a binade: normalised, within (6n + 16) 2^-2P of the exact x^n, and the reciprocal used for negative exponents within the same bound"
 W_ASIN = "asin's domain test and branch selection (|x| > 1 -> NAN, |x| <= 1/2 direct, else complementary) equals the selection on the exact value, and the complementary argument sqrt((1 - |x|)/2) computed with the real double-double operations is valid, inside [0, 1/2] and within 80 * 2^-2P of the intended value, for every valid x of the window (both signs)"
+W_TOINT = "TryFrom<TwoFloat> for an unsigned and a signed integer type (the wide macro: TwoFloat bounds (MAX as f64, -1.0), three ways of assembling the integer from the two words with saturating casts; the narrow macro: f64 bounds and hi as T) transcribed, on EVERY valid x of a window reaching beyond the types' ranges, both signs: Ok(trunc(x)) exactly when it is in range, no intermediate integer overflow"
 W_CMP = "lexicographic comparison of normalised pairs == comparison of exact values, abs, on all valid pairs of a window"
 
 PLAN = {
@@ -43,7 +44,7 @@ PLAN = {
         "level": "model_checking",
         "rule": RULE_TRACE,
         "models": [MC("MC_P3_new.cfg", W_NEW), MC("MC_P4_new.cfg", W_NEW)],
-        "traces": [T("arith_new", (250, 30000), (12, 14))],
+        "traces": [T("arith_new", (250, 4000), (12, 14))],
     },
     "C03": {
         "level": "exploration",
@@ -91,7 +92,8 @@ PLAN = {
     "C09": {
         "level": "model_checking",
         "rule": RULE_TRACE + "; conv_small = From<i8|u8|i16|u16> and the round trip for every value of the type",
-        "models": [MC("MC_P3_wide.cfg", W_WIDE), MC("MC_P4_wide.cfg", W_WIDE)],
+        "models": [MC("MC_P3_wide.cfg", W_WIDE), MC("MC_P4_wide.cfg", W_WIDE), MC("MC_P3_toint_wide.cfg", W_TOINT, slices=8), MC("MC_P5_toint_narrow.cfg", W_TOINT),
+                   MC("MC_P4_toint_wide.cfg", W_TOINT, "thorough")],
         "traces": [T("conv", (600, 50000), (10, 14)), T("conv_small", (1, 1), (4, 16))],
     },
     "C10": {
@@ -107,6 +109,11 @@ PLAN = {
                    MC("MC_P3_wide.cfg", W_WIDE), MC("MC_P3_frac.cfg", W_FRAC), MC("MC_P3_new.cfg", W_NEW), MC("MC_P4_exp2scale.cfg", W_EXP2SCALE, slices=8),
                    MC("MC_P3_addsub.cfg", W_ADD, "thorough"), MC("MC_P3_div.cfg", W_DIV, "thorough"), MC("MC_P5_exp2scale.cfg", W_EXP2SCALE, "thorough")],
         "traces": [T("prog", (12, 1500), (8, 14)), T("arith_all", (100, 2000), (2, 6)), T("arith_new", (120, 2000), (4, 8)), T("conv", (300, 6000), (2, 6)), T("frac", (200, 4000), (2, 4)),
+                   T("arith_add", (300, 8000), (6, 14)), T("arith_mul", (300, 8000), (4, 14)), T("arith_div", (250, 6000), (4, 14)), T("arith_rem", (200, 4000), (2, 8)),
+                   T("roots", (150, 3000), (2, 6), env={"C01_ONLY": "1"}), T("powi", (100, 2000), (2, 6), env={"C01_ONLY": "1"}),
+                   T("exps", (200, 4000), (2, 6), env={"C01_ONLY": "1"}), T("logs", (150, 3000), (2, 6), env={"C01_ONLY": "1"}),
+                   T("trig", (150, 3000), (2, 6), env={"C01_ONLY": "1"}), T("atrig", (150, 3000), (2, 6), env={"C01_ONLY": "1"}),
+                   T("hyp", (150, 3000), (2, 6), env={"C01_ONLY": "1"}), T("angles", (150, 3000), (1, 4), env={"C01_ONLY": "1"}),
                    T("grid07", (64, 16), (4, 16)),
                    T("prog_elem", (150, 5000), (8, 14), env={"C01_ONLY": "1"})],
     },
